@@ -92,6 +92,8 @@ class UDPMessageSerializer:
                 self._serialize_block(body_writer, tmpl_block, block_list)
             if blocks:
                 raise KeyError(f"Unexpected {tuple(blocks.keys())!r} blocks in {msg.name}")
+            # Whatever followed the last known block on the wire
+            body_writer.write_bytes(msg.raw_trailer)
 
             msg_body = body_writer.buffer
             if msg.zerocoded:
